@@ -1096,7 +1096,20 @@ type Config struct {
 }
 
 // Run executes body as thread 0 under the given choice prefix.
+// resetHooks run at the start of every execution: process-wide state kept by shim objects
+// that live in package-level variables of the library (e.g. a sync.Pool) must not leak from
+// one execution into the next.
+var resetHooks []func()
+
+// RegisterReset adds a hook run at the start of every execution.
+//
+//go:norace
+func RegisterReset(f func()) { resetHooks = append(resetHooks, f) }
+
 func Run(c Config, body func()) Result {
+	for _, f := range resetHooks {
+		f()
+	}
 	begin(c.Prefix, c.Horizon)
 	TimersManual, Det, MapDev, Tracing = c.Manual, c.Det, c.MapDev, c.Trace
 	t := newThread("main")
